@@ -34,7 +34,7 @@ RULE = ("structured random cases per generator (all 8 numbers-vs-streams combina
         "impulse / adsr / attack with durations one or two ulps around x.5 (0.49999999999999994), durations given as float / int / "
         "bool / Fraction / float subclass, inf / -inf / nan / None / omitted, every positional / keyword / omitted-default call "
         "shape of line, truthy and falsy non-bool `finish`; white / gauss noise with one limit by keyword and the other left to "
-        "its default, degenerate distributions (low == high, sigma == 0: exact values); before the build the translator harness/props/c19_tr.py rewrites lean/ALV/Gen/C19Src.lean from the source text of modulo_counter / line / fadein / fadeout / attack / adsr / ones / zeros / impulse / sinusoid / TableLookup.__call__ (no case is generated for it: the theorems src_*_is_model are re-checked against what the source says now); a case is non-trivial when the impl yields at least "
+        "its default, degenerate distributions (low == high, sigma == 0: exact values); before the build the translator harness/props/c19_tr.py rewrites lean/ALV/Gen/C19Src.lean from the source text of modulo_counter / line / fadein / fadeout / attack / adsr / ones / zeros / impulse / sinusoid / TableLookup.__call__ / __getitem__ (no case is generated for it: the theorems src_*_is_model are re-checked against what the source says now); a case is non-trivial when the impl yields at least "
         "one sample (multi: two calls do); distinct = distinct JSON case")
 TRUSTED = [
     "translator harness/props/c19_tr.py (ast of audiolazy/lazy_synth.py -> lean/ALV/Gen/C19Src.lean, nothing imported from "
@@ -58,15 +58,18 @@ TRUSTED = [
     "len(self) (= the length of the table, `__len__` and the property `table` checked to be their one-liners), self.table "
     "(a list) and the expression `self.cycles * 2 * pi` (the parameter den); `number * x` for x a number or a Stream as "
     "Arg.map; `tbl[j]` as Python list indexing indexG (negative indices, IndexError); int(ceil(E)) as NumOps.ceil; "
-    "`Stream(E for v in run)` as the lazy map mapRunG with the raising primitives of E in Python's left to right order; "
+    "for TableLookup.__getitem__: int(floor(E)) as the parameter floor (NumOps has none), `j % k` of ints as intModG "
+    "(floored, ZeroDivisionError); `Stream(E for v in run)` as the lazy map mapRunG with the raising primitives of E in Python's left to right order; "
     "the decorator "
     "`tostream` and the `Stream` wrapper are not translated (what the wrapper adds is the subject of C02). NOT trusted: "
     "the translated text itself - src_modulo_counter_is_model, src_line_is_model, src_fadein/fadeout_is_model, "
     "src_adsr_is_model, src_attack_is_model, src_ones_is_model, src_zeros_is_model, src_impulse_is_model, src_sinusoid_is_model, "
-    "src_table_call_is_model prove it equal to the code shaped models mcNow / lineG / adsrG / attackNow / constG / "
-    "impulseG / sinusoidNow / tableCallNow that "
+    "src_table_call_is_model, src_table_getitem_is_model prove it equal to the code shaped models mcNow / lineG / adsrG / "
+    "attackNow / constG / impulseG / sinusoidNow / tableCallNow / getItemNow (getItemNow is tied to the specification "
+    "interpCyc, which the driver runs and the tie compares with the real values, by the theorem src_table_getitem_eq_spec "
+    "only) that "
     "the driver runs and the differential tie compares with the real outputs (exact and bit for bit), so a wrong reading of "
-    "the source shows either as a failing theorem or as a model mismatch; check translator-selftest: 22 deliberate edits of "
+    "the source shows either as a failing theorem or as a model mismatch; check translator-selftest: 25 deliberate edits of "
     "the source text must change the generated text, comments must not, the clean source must reproduce the committed file",
     "float regime: Lean's `Float` + - * / are the C double operations (IEEE binary64, round to nearest even) exactly as "
     "CPython's; C fmod, Python's sign adjustment of float `%` (Objects/floatobject.c float_rem: `mod += wx` when the signs "
@@ -149,8 +152,8 @@ MANIFEST = {
     "technique": "Lean 4 machine-checked proof over an executable model + source-to-Lean translator of generator function "
                  "bodies (harness/props/c19_tr.py -> lean/ALV/Gen/C19Src.lean, theorems src_*_is_model re-checked on every run) "
                  "+ differential correspondence with the implementation (exact and bit for bit on binary64)",
-    "text": "110 Lean 4 theorems. The bodies of modulo_counter (8-way isinstance dispatch, 12 loops, every `% modulo` "
-            "counted), line, fadein, fadeout, attack, adsr, ones, zeros, impulse, sinusoid, TableLookup.__call__ are REGENERATED from the source text on every run and proved equal "
+    "text": "113 Lean 4 theorems. The bodies of modulo_counter (8-way isinstance dispatch, 12 loops, every `% modulo` "
+            "counted), line, fadein, fadeout, attack, adsr, ones, zeros, impulse, sinusoid, TableLookup.__call__ / __getitem__ are REGENERATED from the source text on every run and proved equal "
             "to the code shaped models (src_modulo_counter_is_model, src_line_is_model, src_adsr_is_model, "
             "src_attack_is_model, src_ones_is_model, src_impulse_is_model, ...), hence to the specifications over exact numbers. Float regime: operation-generic generators (record NumOps) run on IEEE binary64 predict the "
             "real float outputs bit for bit (all eight branches / spellings of modulo_counter, fast paths, oscillators, "
@@ -2010,6 +2013,8 @@ TRANSLATED = {
         "TableLookup.__call__": "src_table_call_is_model (= tableCallNow: today's counter, every sample in Python's order of "
                                 "evaluation), src_table_call_eq_G (= tableCallG under two no-raise hypotheses), "
                                 "src_table_call_eq_spec (exact numbers: cyclic linear interpolation)",
+        "TableLookup.__getitem__": "src_table_getitem_is_model (= getItemNow, D15 as repaired), src_table_getitem_eq_spec (exact "
+                                   "numbers, non-empty table: interpCyc for every index), src_table_getitem_empty",
         "defaults / decorators of these": "src_defaults_are_documented (decide)",
     },
     "not_translated": TR.NOT_TRANSLATED,
